@@ -138,8 +138,15 @@ def run(ctx):
         mvars = {norm(s_.targets[0]) for s_ in walk_no_nested(fn) if isinstance(s_, ast.Assign)
                  and isinstance(s_.value, ast.Call)
                  and call_name(s_.value) in ('MolecularContainer', 'read_molecule_file')}
+        dcan = canon(fn)
+
+        def is_molecule(e):
+            t = dcan.text(e)
+            return t.startswith('read_molecule_file(') or t.startswith('MolecularContainer(')
         seq = [last_attr(c) for c in calls_in(fn, nested=False)
-               if isinstance(c.func, ast.Attribute) and norm(c.func.value) in mvars]
+               if isinstance(c.func, ast.Attribute) and is_molecule(c.func.value)]
+        mvars = {dcan.text(c.func.value) for c in calls_in(fn, nested=False)
+                 if isinstance(c.func, ast.Attribute) and is_molecule(c.func.value)}
         ctx.ob('C02.R1', 'driver:%s:report-follows-calculation' % qual,
                seq == ['calculate_pka', 'write_pka'] and len(mvars) == 1,
                'run.%s calls calculate_pka and then only write_pka on the molecule (%s)'
